@@ -43,7 +43,9 @@ SEGS = ['a', 'b.txt', 'index.html', '.', '..', '...', '%2E', '%2e%2E', '%2E%2E',
         '\U0001f600', '%C3%A9', '%FF', '%ED%A0%80', '%E2%82', '%F0%9F%98%80', '%C0%AF', 'CON', 'a:b', 'a|b', 'a*b', '"', '<>',
         '~', '%', '%zz', '%2', 'ſ', 'ﬁ', 'K', 'A', 'UPPER', 'MiXed.HTML', 'a;b', 'a=b', '@', 'a+b', '%2e', '%252F', '%25',
         '\x7f', '%7F', '%80', '%9F', '\x85', '\xa0', 'name.with.many.dots', '-', '_', 'ab' * 10, 'z' * 9, 'y' * 8, 'w' * 7,
-        '%2E.', '.%2E', '%2e.%2F', 'a%0Ab', 'a%0D%0Ab', '%09', 'ü' * 5, 'é' * 130]
+        '%2E.', '.%2E', '%2e.%2F', 'a%0Ab', 'a%0D%0Ab', '%09', 'ü' * 5, 'é' * 130,
+        # compatibility / confusable characters (dots, slashes, 'c/o') that a Unicode-aware folding could turn into separators
+        '%E2%80%A5', '%EF%BC%8F', '%EF%BC%8E%EF%BC%8E', '%E2%84%85', '%E2%80%A4', '%EF%BC%8E%EF%BC%8E%EF%BC%8Fetc', '\u2025', '\uff0f', '\uff0e\uff0e', '\u2215', '%E2%88%95', '\ufe52', '%EF%B9%A8']
 HOSTS = ['example.com', 'EXAMPLE.com', 'h', '127.0.0.1', '[::1]', '[2001:db8::1]', 'xn--bcher-kva.example', 'bücher.example',
          'a.b.c.d.e', 'h.', 'localhost', '0x7f.1', 'h_x', 'ドメイン.example']
 USER = ['', '', '', 'user@', 'user:pw@', 'u%2Fs:p%40w@', 'a%2E%2E@']
@@ -128,6 +130,8 @@ CD_NAMES = ['a.txt', '.', '..', '../../etc/passwd', '/etc/passwd', 'a/b', 'a\\b'
             'é.txt', 'İΣß', '\x00', 'a\x01b', 'a\tb', 'CON', 'a:b', 'a"b', "a'b", 'a\\"b', 'a;b', '%2E%2E', '%2F', 'a%00',
             '\udc80', 'ǅ', 'ﬁle', 'UPPER.TXT', '.hidden', '~', '', '\\', '"', "'", 'a\u2028b', 'a\x85', '\xa0a\xa0', 'a\x1cb',
             'é' * 130, 'n' * 21, 'n' * 9, 'n' * 8, './x', 'x/.', 'x/..']
+EXT_VALUES = ['..', '.', '...', 'a.txt', '%2E%2E', '%2e%2e', '%2e%2e%2fetc', '..%2Fx', 'a%2Fb', '%2F', 'na%C3%AFve.txt', '%00', 'a%0Ab',
+              '.hidden', '~', 'x' * 300, 'A%e2%82%ac.txt', 'CON', 'a.', 'a%20']
 CD_KEYS = ['filename', 'filename', 'filename', 'FILENAME', 'FileName', 'fİlename', 'fılename', 'filename*', 'file name', 'name',
            'xfilename', 'filenamefilename', 'filenam']
 CD_WS = ['', '', ' ', '  ', '\t', '\n', ' \n ', '\x0b', '\x1c', '\x85', '\xa0', '\u2003', '\u3000', '\r\n']
@@ -157,6 +161,13 @@ def gen_cd(r):
         val = name
     head = r.choice(['attachment; ', 'attachment;', 'inline; ', '', ' ', 'attachment; filename; ', 'attachment; filename =\n',
                      'attachment; name=x; '])
+    if r.random() < 0.12:
+        # RFC 5987/6266 extended parameter  filename*=charset'lang'value  (alone, or with a plain fallback before/after)
+        ext = "filename*%s=%s%s'%s'%s" % (r.choice(['', '', ' ']), r.choice(['', '', ' ']),
+                                           r.choice(['UTF-8', 'utf-8', 'ISO-8859-1', 'x']), r.choice(['', '', 'en', 'de-CH']),
+                                           r.choice(EXT_VALUES))
+        plain = 'filename=' + val
+        return head + r.choice([ext, ext, plain + '; ' + ext, ext + '; ' + plain, ext + ';', ext + ' '])
     tail = r.choice(['', '', '', '; size=3', ' ', '\n', '\nfilename=evil', '; filename=second', ' \t', '\x0b'])
     hdr = head + r.choice(CD_KEYS) + r.choice(CD_WS) + '=' + r.choice(CD_WS) + val + tail
     if r.random() < 0.1:
